@@ -2,6 +2,7 @@
 //! line-oriented case files for the Coq model (extracted OCaml / in-Coq vm_compute) to replay.
 mod c01;
 mod c14;
+mod c18;
 mod corpus;
 mod dsl;
 mod rng;
@@ -16,7 +17,13 @@ fn main() {
     }
     // silence panic messages of caught panics (they are outcomes, not errors)
     if std::env::var("VERIF_PANIC").is_err() {
-        std::panic::set_hook(Box::new(|_| {}));
+        // caught panics are outcomes, not errors: record where they happened, print nothing
+        std::panic::set_hook(Box::new(|info| {
+            let loc = info.location().map(|l| format!("{}:{}", l.file(), l.line())).unwrap_or_default();
+            let msg = if let Some(s) = info.payload().downcast_ref::<&str>() { s.to_string() }
+                      else if let Some(s) = info.payload().downcast_ref::<String>() { s.clone() } else { String::new() };
+            *rng::LAST_PANIC.lock().unwrap() = (loc, msg);
+        }));
     }
     let prop = args[1].as_str();
     let seed: u64 = args[2].parse().expect("seed");
@@ -26,6 +33,7 @@ fn main() {
     let n = match prop {
         "c14" => c14::run(seed, tier, &mut w),
         "c01" => c01::run(seed, tier, &mut w),
+        "c18" => c18::run(seed, tier, &mut w),
         _ => {
             eprintln!("unknown property {}", prop);
             std::process::exit(2);
